@@ -918,6 +918,19 @@ impl<T: TypeConfig> RaftRoleState for LeaderState<T> {
             self.drain_pending_writes_with_error(ErrorCode::ProposeFailed);
         }
 
+        // Drain writes that are committed but still wait for the state machine result.
+        // The entry stays in the log and will be applied; only its outcome report is lost,
+        // so the client is told the outcome is unknown instead of being left without a reply.
+        if !self.pending_write_apply.is_empty() {
+            warn!(
+                "Draining {} committed writes awaiting apply due to role change",
+                self.pending_write_apply.len()
+            );
+            for (_, sender) in self.pending_write_apply.drain() {
+                let _ = sender.send(Ok(ClientResponse::client_error(ErrorCode::ProposeFailed)));
+            }
+        }
+
         Ok(())
     }
 
